@@ -399,6 +399,23 @@ let cmd_adl (args : string list) : string =
      | Adl_panic -> "panic" ^ hyp)
   | _ -> "err badcmd"
 
+(* ---------- StateVector::partial_cmp / merge / set_min / set_max (Crdt/SvOrder.v); vectors in the iteration order of the implementation's map ---------- *)
+let svo_parse (s : string) : (n * n) list =
+  if s = "_" then [] else List.map (fun t -> match String.split_on_char ':' t with [c; k] -> (n_of_hex c, n_of_hex k) | _ -> failwith "bad sv") (String.split_on_char ',' s)
+let svo_print (l : (n * n) list) : string =
+  let cs = List.sort compare (List.map (fun (c, k) -> (String.length (hex_of_n c), hex_of_n c, hex_of_n k)) l) in
+  match cs with [] -> "_" | _ -> String.concat "," (List.map (fun (_, c, k) -> c ^ ":" ^ k) cs)
+let cmd_svo (args : string list) : string =
+  match args with
+  | ["cmp"; a; b] ->
+    let (a, b) = (svo_parse a, svo_parse b) in
+    "ok " ^ (match svo_partial_cmp a b with Some SvLess -> "L" | Some SvEqual -> "E" | Some SvGreater -> "G" | None -> "N")
+    ^ " wf=" ^ (if svo_wf a && svo_wf b then "1" else "0")
+  | ["merge"; a; b] -> "ok " ^ svo_print (svo_merge (svo_parse a) (svo_parse b))
+  | ["setmin"; a; c; k] -> "ok " ^ svo_print (svo_set_min (svo_parse a) (n_of_hex c) (n_of_hex k))
+  | ["setmax"; a; c; k] -> "ok " ^ svo_print (svo_set_max (svo_parse a) (n_of_hex c) (n_of_hex k))
+  | _ -> "err badcmd"
+
 (* ---------- which blocks of an update are integrated, which are set aside (Crdt/Integrate.v: apply_update, Update::integrate, BlockPicker) ---------- *)
 let itg_stores : (string, itg_store) Hashtbl.t = Hashtbl.create 8
 let itg_print_runs (l : (n * (n * n) list) list) : string =
@@ -1102,6 +1119,7 @@ let dispatch (line : string) : string =
   | "MRG" :: args -> cmd_mrg args
   | "DFF" :: args -> cmd_dff args
   | "ADL" :: args -> cmd_adl args
+  | "SVO" :: args -> cmd_svo args
   | "ITG" :: args -> cmd_itg args
   | "RT" :: args -> cmd_rt args
   | "XW" :: args -> cmd_xw args
